@@ -190,7 +190,7 @@ Definition bmatch (a : act) (ba : bact) : Prop :=
         exists w1 w1', do_op w1 (wop_of pb) = (WOk, w1', [WWrite off bytes; WSync])
   | ASync n => ba = BSync n
   | ADelete n => ba = BDelete n
-  | ACommit _ | ASetStable _ _ | AInitMeta | AFail _ => ba = BNone
+  | ACommit _ | ASetStable _ _ | AInitMeta | AList | AFail _ => ba = BNone
   end.
 
 (* from (bd, d) the L2 actions acts, performed together with matching
